@@ -6,6 +6,9 @@ From OV Require Import Ops RInst Num.OpsC09 Gen.Wavefront Spec.S_C09.
 Import ListNotations.
 Local Open Scope R_scope.
 
+(** equations between kernel results are at type [T ROps]; make them equations over [R] *)
+Ltac Req := match goal with |- @eq _ ?a ?b => change (@eq R a b) end.
+
 Lemma sq_nonneg (x : R) : 0 <= x * x.
 Proof. pose proof (Rle_0_sqr x) as H; unfold Rsqr in H; exact H. Qed.
 
@@ -208,7 +211,7 @@ Proof.
   replace ((xc - xc) * (xc - xc) + (yc - yc) * (yc - yc) + (zc - zc) * (zc - zc) - Rr * Rr) with (- (Rr * Rr)) by ring.
   replace (0 * 0 - 4 * 1 * - (Rr * Rr)) with ((2 * Rr) * (2 * Rr)) by ring.
   rewrite sqrt_square by lra.
-  match goal with |- (if Rlt_dec ?x 0 then _ else _) = _ => destruct (Rlt_dec x 0) as [H|H] end; [field|].
+  match goal with |- (if Rlt_dec ?x 0 then ?u else ?v) = _ => change (@eq R (if Rlt_dec x 0 then u else v) Rr); destruct (Rlt_dec x 0) as [H|H] end; [field|].
   assert (Rr = 0) by (unfold Rdiv in H; lra). subst. field.
 Qed.
 
@@ -228,7 +231,7 @@ Theorem path_length_is_path_to_sphere_partial :
     k_wf_path_length ROps xc yc zc Rr (opds ++ [opd]) (xs ++ [xr]) (ys ++ [yr]) (zs ++ [zr])
                      (Ls ++ [L]) (Ms ++ [M]) (Ns ++ [N])
     = path_to_sphere 0 opd n_img (t_xp xc yc zc Rr xr yr zr L M N xs ys zs Ls Ms Ns).
-Proof. intros. rewrite path_length_unfold. unfold path_to_sphere. subst. ring. Qed.
+Proof. intros. rewrite path_length_unfold. unfold path_to_sphere. subst. Req. ring. Qed.
 
 (** hypotheses are satisfiable: a ray hitting the image plane at (1,0,0), centre at the origin, sphere
     of radius 5, direction +z: the intersection behind the image point is at distance sqrt 24 *)
